@@ -640,9 +640,10 @@ class _FusionCase:
     DONOR = 'MASTEDLVKAADEGLVSTKGGHLRVVK'
     ACCEPTOR = 'MQNHIDELLKSSYTEFKAAGRHVVDK'
 
-    def __init__(self, donor_codons, acceptor_offset):
+    def __init__(self, donor_codons, acceptor_offset, end_nf=False):
         """donor transcript up to `donor_codons` codons of its CDS, then the acceptor transcript from
-        `acceptor_offset` nt into ITS CDS"""
+        `acceptor_offset` nt into ITS CDS.  end_nf: the acceptor is tagged mRNA_end_NF - its model stops in the middle
+        of the CDS (no stop codon, no 3'UTR), so the last, open-ended fragment is not a digestion product"""
         import sys
         from moPepGen import dna, gtf, svgraph
         from mpgverif.harness.annobuild import gene_model, tx_model
@@ -652,14 +653,19 @@ class _FusionCase:
         a_cds = ''.join(CODON[a] for a in self.ACCEPTOR)
         d_tx = UTR5 + d_cds + 'TAA' + UTR3
         a_tx = 'GGCTCAGTCC' + a_cds + 'TGA' + 'CCGTTAGC'
+        if end_nf:
+            a_cds = a_cds[:-3]
+            a_tx = 'GGCTCAGTCC' + a_cds + 'GG'
         gap = 'TTTTTTTTTT'
         chrom = d_tx + gap + a_tx
         a0 = len(d_tx) + len(gap)
         self.fused = d_tx[:len(UTR5) + 3 * donor_codons] + a_tx[10 + acceptor_offset:]
         txs = {'T1': tx_model('T1', 'G1', 'chr1', 1, [(0, len(d_tx))], cds=[(len(UTR5), len(UTR5) + len(d_cds))],
                               three_utr=[(len(UTR5) + len(d_cds) + 3, len(d_tx))]),
-               'T2': tx_model('T2', 'G2', 'chr1', 1, [(a0, a0 + len(a_tx))], cds=[(a0 + 10, a0 + 10 + len(a_cds))],
-                              three_utr=[(a0 + 10 + len(a_cds) + 3, a0 + len(a_tx))])}
+               'T2': (tx_model('T2', 'G2', 'chr1', 1, [(a0, a0 + len(a_tx))], cds=[(a0 + 10, a0 + len(a_tx))],
+                               tags=['mRNA_end_NF']) if end_nf else
+                      tx_model('T2', 'G2', 'chr1', 1, [(a0, a0 + len(a_tx))], cds=[(a0 + 10, a0 + 10 + len(a_cds))],
+                               three_utr=[(a0 + 10 + len(a_cds) + 3, a0 + len(a_tx))]))}
         genes = {'G1': gene_model('G1', 'chr1', 0, len(d_tx), 1, ['T1']),
                  'G2': gene_model('G2', 'chr1', a0, a0 + len(a_tx), 1, ['T2'])}
         anno = gtf.GenomicAnnotation(genes=genes, transcripts=txs, source='GENCODE')
@@ -696,6 +702,10 @@ class _FusionCase:
         prot = _translate(self.fused[len(UTR5):])
         self.prot = prot
         self.cands = {(q, k) for q, k in _digest(prot) if q and q not in canon}
+        ran_off = len(self.fused) - (len(UTR5) + 3 * len(prot)) < 3      # translation reached the end without a stop
+        if end_nf and ran_off:
+            # peptides reaching the open end of the incomplete transcript model are not digestion products
+            self.cands = {(q, k) for q, k in self.cands if not prot.endswith(q) or prot[-1] in 'KR'}
 
     def run(self, misc, lo, hi):
         from crosshair.tracers import NoTracing
@@ -1396,3 +1406,23 @@ c03_headers_shifted_frame_stop_lost = cond(
     'C03', bounds='KNOWN FINDING CLASS: ONE concrete transcript with a frameshifting deletion and, in the shifted frame, an SNV that '
     'removes the stop codon ending that frame; miscleavage = 1, min_length and max_length UNBOUNDED symbolic integers',
     encodes=ENC, stubs=STUBS, codes=CODES_H, timeout=900, expect='refuted-known')(_known_shifted_stop)
+
+
+# fusion into an acceptor tagged mRNA_end_NF (its model ends inside the CDS): the open-ended last fragment is not reported
+CASE_F_NF = _Lazy(lambda: _FusionCase(13, 6, end_nf=True))
+c15_fusion_traversal_endnf_0 = _mkf('c15_fusion_traversal_endnf_0', CASE_F_NF, 'in frame; acceptor tagged mRNA_end_NF (no stop codon)',
+                                    0, ('quick', 'thorough'))
+
+
+def _c02_endnf(lo: int, hi: int) -> int:
+    """
+    pre: 1 <= lo
+    post: _ >= 0
+    """
+    return CASE_F_NF.check(1, lo, hi)
+
+
+_c02_endnf.__name__ = _c02_endnf.__qualname__ = 'c02_fusion_traversal_endnf_1'
+c02_fusion_traversal_endnf_1 = cond(
+    'C02', bounds=_BF % ('in frame; acceptor tagged mRNA_end_NF (its model ends inside the CDS, no stop codon)', 1),
+    encodes=ENC_F, stubs=STUBS + ['variant pool -> stand-in without further variants'], codes=CODES_F, timeout=900)(_c02_endnf)
